@@ -6,6 +6,12 @@ use kolibrie::parser::{parse_combined_query, parse_group_graph_pattern, parse_sp
 use serde_json::{json, Value};
 use shared::query::*;
 
+thread_local! {
+    /// prefix declarations of the request being converted (PREFIX prologue of parse_combined_query); a prefixed name is
+    /// compared by the IRI it abbreviates
+    static PREFIXES: std::cell::RefCell<std::collections::HashMap<String, String>> = std::cell::RefCell::new(std::collections::HashMap::new());
+}
+
 fn term(lexeme: &str) -> Value {
     let t = lexeme.trim();
     if let Some(v) = t.strip_prefix('?').or_else(|| t.strip_prefix('$')) {
@@ -19,6 +25,12 @@ fn term(lexeme: &str) -> Value {
     }
     if (t.starts_with('"') && t.ends_with('"') && t.len() >= 2) || (t.starts_with('\'') && t.ends_with('\'') && t.len() >= 2) {
         return json!(["c", &t[1..t.len() - 1]]);
+    }
+    if let Some((pfx, local)) = t.split_once(':') {
+        let expanded = PREFIXES.with(|p| p.borrow().get(pfx).map(|ns| format!("{ns}{local}")));
+        if let Some(iri) = expanded {
+            return json!(["c", iri]);
+        }
     }
     json!(["c", t])
 }
@@ -110,10 +122,12 @@ fn blank(mut rest: &str) -> bool {
 /// Outcome of one parser on one text: {"res":"ok"|"err"|"panic","rest":unconsumed bytes (after trimming whitespace/comments is the
 /// caller's business: we report the raw remainder and whether it is blank),"kind":"select"|"update"|"group"|"none","tree":{..}}
 fn run_parser(which: &str, text: &str) -> Value {
+    PREFIXES.with(|p| p.borrow_mut().clear());
     let r = guarded(|| -> Value {
         match which {
             "combined" => match parse_combined_query(text) {
                 Ok((rest, c)) => {
+                    PREFIXES.with(|p| *p.borrow_mut() = c.prefixes.clone());
                     let (kind, tree) = match c.sparql.as_ref() {
                         Some(SparqlOperation::Select(q)) => ("select", select(q)),
                         Some(SparqlOperation::Update(u)) => ("update", update(u)),
